@@ -518,6 +518,13 @@ func execFile(op string, a []sx) sx {
 			one(data, int(ma[0].int()), false)
 		case "flip":
 			flip(int(ma[0].int()), int(ma[1].int()))
+		case "cbflip":
+			// the callback fails at a record AND a bit of the file is flipped (generated: in the sync marker
+			// of the block that holds the record)
+			pos, bit := int(ma[1].int()), int(ma[2].int())
+			mut := append([]byte(nil), data...)
+			mut[pos] ^= 1 << uint(bit)
+			one(mut, int(ma[0].int()), true)
 		case "fliprange":
 			for pos := int(ma[0].int()); pos < int(ma[1].int()); pos++ {
 				for bit := 0; bit < 8; bit++ {
@@ -851,6 +858,20 @@ func (g *genFile) damageCases(c *ctx) {
 	g.emit(c, T("fliprange", I(int64(g.hdrLen-16)), I(int64(g.hdrLen))))
 	for _, b := range g.blocks {
 		g.emit(c, T("fliprange", I(int64(b.payEnd)), I(int64(b.end))))
+	}
+	// a callback failure in a block whose trailing marker is damaged: the callback's error comes first
+	first := 0
+	var both []sx
+	for _, b := range g.blocks {
+		if b.count > 0 {
+			for _, i := range []int{first, first + b.count - 1} {
+				both = append(both, T("cbflip", I(int64(i)), I(int64(b.payEnd+c.rng.Intn(16))), I(int64(c.rng.Intn(8)))))
+			}
+			first += b.count
+		}
+	}
+	if len(both) > 0 {
+		g.emit(c, both...)
 	}
 	if g.codec == "null" {
 		return
